@@ -179,6 +179,9 @@ class Interp:
             return TupV([self.symbolic(x, name + (i,), elem) for i, x in enumerate(t["elems"])])
         if k == "dyn":
             return DynV((sname, elem) if elem else sname, t["trait"])
+        if k == "param":
+            # a value of a generic / `impl Trait` argument type: an abstract object with identity
+            return DynV((sname, elem) if elem else sname, None)
         if k == "adt":
             d = t["def"]
             if d in ("std::borrow::Cow", "std::boxed::Box"):
